@@ -437,7 +437,7 @@ static void caseSingle(Rng& r, Ctx& c)
     {
       // PolyElem::inside on a ring left open (the statement covers "closed or left open")
       bool g4 = pe.inside(coor);
-      c.truth("polyelem-inside-open", "C20:PolyElem.inside:open-ring", g4 == want, w);
+      c.truth("polyelem-inside-open", K("C20:PolyElem.inside:open-ring"), g4 == want, w);
     }
   }
 }
